@@ -27,12 +27,13 @@ func init() {
 type Step struct {
 	Kind string `json:"kind"` // sub unsub mutate echo url raw write touch gate sync cancel close failwrite pause
 
-	ID    string `json:"id,omitempty"`
-	Tag   string `json:"tag,omitempty"`
-	Query string `json:"query,omitempty"`
-	Raw   string `json:"raw,omitempty"`
-	Op    int    `json:"op,omitempty"`
-	Cell  string `json:"cell,omitempty"` // touch: "" = all; gate: cell filter
+	ID    string                 `json:"id,omitempty"`
+	Tag   string                 `json:"tag,omitempty"`
+	Query string                 `json:"query,omitempty"`
+	Vars  map[string]interface{} `json:"vars,omitempty"` // sub: variables of the document
+	Raw   string                 `json:"raw,omitempty"`
+	Op    int                    `json:"op,omitempty"`
+	Cell  string                 `json:"cell,omitempty"` // touch: "" = all; gate: cell filter
 
 	// gate: arm a gate (Phase, Cell), apply the trigger write Op, and while a
 	// resolver is held apply Landing writes and play Then; release afterwards.
@@ -262,7 +263,11 @@ func (s *Session) play(st *Step) error {
 	var err error
 	switch st.Kind {
 	case "sub":
-		k := s.Sock.Send(st.ID, "subscribe", map[string]interface{}{"query": st.Query, "variables": map[string]interface{}{}}, MsgMeta{Tag: st.Tag, Query: st.Query})
+		vars := st.Vars
+		if vars == nil {
+			vars = map[string]interface{}{}
+		}
+		k := s.Sock.Send(st.ID, "subscribe", map[string]interface{}{"query": st.Query, "variables": vars}, MsgMeta{Tag: st.Tag, Query: st.Query, Vars: st.Vars})
 		err = s.afterSend(st, k)
 	case "unsub":
 		k := s.Sock.Send(st.ID, "unsubscribe", nil, MsgMeta{})
